@@ -6,6 +6,23 @@ var _ = gosym.Options{}
 
 var props = []PropSpec{
 	{
+		ID: "C16", Level: "other",
+		Explanation: "bounded symbolic execution of call histories against one runtime.VM (NewVM, SpawnSync, spawnCore, Wait, HandleTermination, Core.Run incl. goroutines, channels and the RWMutex under the engine's scheduler); targets are selectors, argument values unconstrained solver variables; a reference state machine tracks the global as a term; a call that blocks forever is the engine's deadlock outcome",
+		Harnesses: []HarnessSpec{
+			{Pkg: "homescript", Func: "VerifHarness_HostCalls", Quick: map[string]int{"H": 2}, Thor: map[string]int{"H": 4}, Require: []string{"called", "history-done"},
+				What: "histories of H calls over {sub(a,b), inc(d) on a global, early(n) returning from inside for+try, boom(a) throwing, lst(a) returning a list}: declared argument order, declared result, globals as earlier calls left them, no registered core left, failure (not blocking) after a failed call"},
+		},
+	},
+	{
+		ID: "C17", Level: "other",
+		Explanation: "bounded schedule exploration inside the engine: every interpreted goroutine runs under a baton, scheduling decisions at blocking/sync operations are fork variables (bounded number of deviations from the default order); spawn arguments are solver variables; a lockset (Eraser) monitor watches every Go map shared between goroutines; the Go scheduler's preemptive interleavings are NOT enumerated",
+		Harnesses: []HarnessSpec{
+			{Pkg: "homescript", Func: "VerifHarness_Spawn", Quick: map[string]int{}, Require: []string{"returned"},
+				Opts: gosym.Options{Sched: true, SchedBudget: 2, RaceMonitor: true}, ThorPaths: 0,
+				What: "1..2 spawned cores with symbolic arguments printing a non-commutative result and updating a global, <= 2 scheduling deviations: each print once and whole with the spawn's arguments, Wait returns after all cores, no map shared without a common lock"},
+		},
+	},
+	{
 		ID: "C10", Level: "other",
 		Explanation: "bounded symbolic execution of Core.Run / VM.Wait / interpreter.Execute with a context under harness control whose cancellation instant (the poll at which Done() becomes ready) is a fork variable; goroutines, channels and the RWMutex of VM.Wait are executed by the engine's cooperative scheduler; a loop that never polls shows up as an exceeded step bound (termination obligation), replayed natively under a wall-clock timeout",
 		Harnesses: []HarnessSpec{
